@@ -46,12 +46,15 @@ let eval inp obs =
   let ws = List.map n_of_tok (List.filteri (fun i _ -> i < nv) rest) in
   let rest = List.filteri (fun i _ -> i >= nv) rest in
   let fcsize, vcsize, diffk, mal = (match rest with
-    | [f; v; d; m] -> int_of_string f, v, n_of_tok d, (m = "1") | _ -> failwith "bad header") in
+    | [f; v; d; m] -> int_of_string f, v, n_of_tok d, (m = "1") | _ -> failwith "bad header") in  (* m = 2: vecfc.NewIndexWithEngine, nil OnDropNotFlushed, caches 0; same model *)
   (* mal = 1: the generator corrupted some events.  The specification stays ON until the first accepted
      event that fails wf_evb (the prefix, and corrupted events that are still well formed such as seq-1
      events with parents, are inside the theorems' domain); from then on implementation vs model only. *)
   let declared_mal = mal and mal = ref false and hyp_bad = ref [] in
-  let nvn = nat_of_int nv in
+  let nv0 = nv in
+  let nv = ref nv0 in
+  let nvn0 = nat_of_int nv0 in
+  let nvn = ref nvn0 in
   let ws = ref ws in
   let q = ref (quorum_of !ws) in
   (* the index is the PERSISTED engine model (VecPersist.pidx: byte tables, BranchesInfo record written by
@@ -59,28 +62,29 @@ let eval inp obs =
   (* round 4: the COMPOSED engine (VecPersist.ceng): byte tables, BranchesInfo record, HB/LA write-through
      caches (simplewlru.New(size, int(size))), ForklessCause LRU, dirty flag *)
   let mkc v = (match bcache_new (n_of_tok v) (z_of_tok v) with Some c -> c | None -> failwith "cache size") in
-  let ce = ref (ce_new nvn (nat_of_int fcsize) (mkc vcsize) (mkc vcsize)) in
+  let ce = ref (ce_new !nvn (nat_of_int fcsize) (mkc vcsize) (mkc vcsize)) in
   let s = ref (ce_view !ce) in
   let order = ref [] (* newest first *) and orderF = ref [] in
   let specE = ref [] (* (id, event), newest first: events the implementation accepted *) and specEF = ref [] in
   let table = ref None in
   let get_table () = (match !table with Some t -> t | None -> let t = anc_table !specE in table := Some t; t) in
-  let qi = ref (Some (qi_new nvn)) in
-  let lastp = Array.make (max nv 1) None and selfev = ref None in
+  let qi = ref (Some (qi_new !nvn)) in
+  let lastp = Array.make (max nv0 1) None and selfev = ref None in
   let diff = diff_family diffk in
   let spec_bad = ref [] and mspec_bad = ref [] and forkseen = ref false and fctrue = ref false in
   let obs_arr = Array.of_list obs in
   let mobs = ref [] in
-  let vals = List.map nat_of_int (range 0 nv) in
-  let spec_clock id = List.map obs_of_spec (merged_spec_t nvn !specE (get_table ()) id) in
+  let vals = List.map nat_of_int (range 0 !nv) in
+  let spec_clock id = List.map obs_of_spec (merged_spec_t !nvn !specE (get_table ()) id) in
   let spec_matrix () = (* row v, column c *)
     List.map (fun v -> List.map (fun c -> match lastp.(c) with None -> N0
-                | Some id -> List.nth (spec_clock id) v) (range 0 nv)) (range 0 nv) in
+                | Some id -> List.nth (spec_clock id) v) (range 0 !nv)) (range 0 !nv) in
   let spec_self () = (match !selfev with None -> List.map (fun _ -> N0) vals | Some id -> spec_clock id) in
   let csv f l = join "," (List.map f l) in
   List.iteri (fun i op ->
     let iobs = if i < Array.length obs_arr then obs_arr.(i) else "" in
     let out = (match op with
+    | ("E" | "A") :: _ :: cr :: _ when int_of_string cr >= !nv -> "es"   (* no such validator: not submitted *)
     | ("E" | "A" as kind) :: id :: cr :: sq :: ps ->
       let e = { eid = n_of_tok id; ecr = nat_of_tok cr; eseq = n_of_tok sq; epar = List.map n_of_tok ps } in
       let (ok, ce') = ce_add !ce e in
@@ -88,14 +92,14 @@ let eval inp obs =
       s := ce_view !ce;
       if ok then order := e.eid :: !order else order := !orderF;
       if iobs = "e1" then begin
-        if not !mal && not (wf_evb nvn !specE e) then begin
+        if not !mal && not (wf_evb !nvn !specE e) then begin
           if not declared_mal then hyp_bad := (Printf.sprintf "op%d:E%s outside wf_stream" i (ntok e.eid)) :: !hyp_bad;
           mal := true end;
         specE := (e.eid, e) :: !specE; table := None end
       else begin specE := !specEF; table := None end;
       if ok && kind = "E" then orderF := !order;
       if iobs = "e1" && kind = "E" then specEF := !specE;
-      if int_of_nat (nbr !s) > nv then forkseen := true;
+      if int_of_nat (nbr !s) > !nv then forkseen := true;
       if ok then "e1" else "eP" (* the real Add panics on a missing parent vector (typed-nil check), see notes *)
     | ["F"] -> ce := ce_flush !ce; s := ce_view !ce; orderF := !order; specEF := !specE; "f"
     | ["D"] ->
@@ -112,7 +116,8 @@ let eval inp obs =
       let lost = (if fresh = "1" then List.length !order else List.length !order - List.length !orderF) in
       ws := List.map n_of_tok w2; q := quorum_of !ws;
       if fresh = "1" then begin
-        ce := ce_reset_fresh nvn !ce; order := []; orderF := []; specE := []; specEF := [] end
+        nv := List.length w2; nvn := nat_of_int !nv;   (* a new epoch may have another validator count *)
+        ce := ce_reset_fresh !nvn !ce; order := []; orderF := []; specE := []; specEF := [] end
       else begin
         ce := ce_reset_same !ce; order := !orderF; specE := !specEF end;
       s := ce_view !ce; table := None;
@@ -133,7 +138,7 @@ let eval inp obs =
           (if ord = "1" then List.rev pairs else pairs);
         bits (List.map (fun p -> Hashtbl.find tbl p) pairs) in
       let b1 = run () in let b2 = run () in
-      let sp = bits (List.concat_map (fun a -> fc_spec_row !ws !q nvn !specE (get_table ()) a r) r) in
+      let sp = bits (List.concat_map (fun a -> fc_spec_row !ws !q !nvn !specE (get_table ()) a r) r) in
       if String.contains sp '1' then fctrue := true;
       if not !mal then begin
         if iobs <> "q" ^ sp ^ "/" ^ sp then spec_bad := (Printf.sprintf "op%d:Q spec=%s" i sp) :: !spec_bad;
@@ -144,7 +149,7 @@ let eval inp obs =
       let r = lastn (int_of_string k) (List.rev !order) in
       let one id =
         let (m, ce') = ce_merged !ce id in ce := ce';   (* GetMergedHighestBefore through the HB cache *)
-        let sp = merged_spec_t nvn !specE (get_table ()) id in
+        let sp = merged_spec_t !nvn !specE (get_table ()) id in
         let sp_tok = csv (fun (f, x) -> if f then "F" else ntok x) sp in
         let m_tok = csv hb_tok_a m in
         if not !mal && m_tok <> sp_tok then mspec_bad := (Printf.sprintf "op%d:M%s" i (ntok id)) :: !mspec_bad;
@@ -186,7 +191,7 @@ let eval inp obs =
          (match !qi with
           | None -> ()
           | Some st -> qi := qi_process st (merged !s idn) e.ecr (self = "1"));
-         if c < nv then lastp.(c) <- Some idn;
+         if c < nv0 then lastp.(c) <- Some idn;
          if self = "1" then selfev := Some idn;
          if !qi = None then "pPANIC" else "p1")
     | ["PX"; id; self] -> (* ProcessEvent of a copy of event id whose creator is NOT a validator: column 0 *)
@@ -225,7 +230,7 @@ let eval inp obs =
             qi := Some st';
             if not !mal then begin
               let smeds = List.map (fun row -> median_spec !ws !q row) (spec_matrix ()) in
-              let sp = metric_spec diff smeds (spec_self ()) (spec_clock idn) nvn in
+              let sp = metric_spec diff smeds (spec_self ()) (spec_clock idn) !nvn in
               if iobs <> "t" ^ ntok sp then spec_bad := (Printf.sprintf "op%d:T spec=%s" i (ntok sp)) :: !spec_bad;
               if sp <> m then mspec_bad := (Printf.sprintf "op%d:T" i) :: !mspec_bad
             end;
